@@ -506,9 +506,12 @@ func runReads(t *tracker, src *choice.Source) int {
 			t.ctx.Ev("tick", t.now)
 			r.v.Tick(t.now)
 		case 9:
-			if src.Chance(1, 4) {
+			switch {
+			case src.Chance(1, 4):
 				r.close(oc)
-			} else {
+			case src.Chance(1, 4):
+				r.closeBetweenTakeAndAdd(oc)
+			default:
 				r.duty(oc)
 			}
 		}
@@ -583,6 +586,34 @@ func (r *readTable) takeAndAdd(oc *opCtx) {
 	r.v.Add(b.ctx, reqs)
 	if !t.closed {
 		r.batches = append(r.batches, b)
+	}
+}
+
+// closeBetweenTakeAndAdd: node.close() (called by StopShard/StopReplica on the
+// caller's goroutine, not under raftMu) lands between the two halves of
+// node.handleReadIndex on the step worker: the queued requests have been taken
+// out of the queue, the batch has not been added yet. Every accepted request
+// must still end (Terminated).
+func (r *readTable) closeBetweenTakeAndAdd(oc *opCtx) {
+	t := r.t
+	if t.closed {
+		return
+	}
+	reqs := r.v.TakeRequests()
+	r.queued = 0
+	ctx := r.v.NextCtx()
+	for _, rs := range reqs {
+		for _, h := range t.handles {
+			if h.rs == rs {
+				h.taken = true
+			}
+		}
+	}
+	t.ctx.Ev("take-close-add", uint64(len(reqs)))
+	r.close(oc)
+	oc.name = "close between take and add"
+	if len(reqs) > 0 {
+		r.v.Add(ctx, reqs)
 	}
 }
 
